@@ -35,6 +35,9 @@ func specialTexts() []Text {
 		"tabs-in-comment":         "packet P {\n    u16 a, //\ttabbed\tcomment  with  spaces   \n}\n",
 		"doc-with-comment-marker": "packet P {\n    u16 a `// not a comment`,\n    u16 b `ends with slash /`,\n}\n",
 	}
+	for n, raw := range docPositionTexts() {
+		raws[n] = raw
+	}
 	var names []string
 	for n := range raws {
 		names = append(names, n)
@@ -54,6 +57,60 @@ func specialTexts() []Text {
 			}
 		}
 		out = append(out, Text{Name: "special/" + n, Toks: tt, Raw: raw})
+	}
+	return out
+}
+
+// docPositionTexts: every position of the grammar that takes free text (the doc string of each declaration kind,
+// a checksum algorithm name, a string match key, comments) filled with each payload that is special to some
+// layer a text passes through (format verbs, escapes, non-ASCII, comment markers, syntax characters, runs of
+// blanks) - once in all positions together and once in each position alone, so that a defect of one
+// declaration kind's printing routine is met whatever the others do.
+func docPositionTexts() map[string]string {
+	const tmpl = "MetaData Dict {\n    u64 Price `D0`,\n    Price Bid `D1`,\n}\nroot packet P {\n    u16 Kind `D2`,\n    Q Obj `D3`,\n    Q `D4`,\n    repeat Q Objs `D5`,\n" +
+		"    u16 BodyLen @lengthOf(Body) `D6`,\n    match Kind as Body {\n        1 : Q,\n        [2, 3] : R,\n    },\n    u32 Sum @calculatedFrom(\"S0\") `D7`,\n    Price Px `D8`,\n" +
+		"    Inner {\n        u8 X `D9`,\n    },\n    char[4] Fx `D10`,\n    repeat string Ss `D11`,\n    @tag(3)\n    u8 T `D12`, // C0\n}\n// C1\npacket Q {\n    u8 X,\n}\npacket R {\n}\n"
+	payloads := []struct{ name, text string }{
+		{"percent", "100% of %d %s %v %%"},
+		{"backslash", `a\nb \x00 \t \`},
+		{"unicode", "说明 ✓ é 😀"},
+		{"comment-marker", "// not a comment /* nor this */ /"},
+		{"syntax-chars", "{ } , ; : [ ] @lengthOf(x) \"q\" 'c'"},
+		{"blanks", "two  spaces \t tab   end "},
+	}
+	const positions = 13
+	out := map[string]string{}
+	fill := func(only int, pl string) string {
+		s := tmpl
+		for k := positions - 1; k >= 0; k-- {
+			v := fmt.Sprintf("doc %d", k)
+			if only < 0 || only == k {
+				v = pl
+			}
+			s = strings.Replace(s, fmt.Sprintf("`D%d`", k), "`"+v+"`", 1)
+		}
+		alg, c0, c1 := "SUMU32", "trailing", "between"
+		if only < 0 || only == positions {
+			if !strings.ContainsAny(pl, "\"\\") {
+				alg = pl
+			}
+		}
+		if only < 0 || only == positions+1 {
+			c0 = pl
+		}
+		if only < 0 || only == positions+2 {
+			c1 = pl
+		}
+		s = strings.Replace(s, "\"S0\"", "\""+alg+"\"", 1)
+		s = strings.Replace(s, "// C0", "// "+c0, 1)
+		s = strings.Replace(s, "// C1", "// "+c1, 1)
+		return s
+	}
+	for _, pl := range payloads {
+		out["free-text/"+pl.name+"/everywhere"] = fill(-1, pl.text)
+		for k := 0; k < positions+3; k++ {
+			out[fmt.Sprintf("free-text/%s/position-%02d", pl.name, k)] = fill(k, pl.text)
+		}
 	}
 	return out
 }
